@@ -53,6 +53,9 @@ def tnum(rng, v):
         # stateful transforms applied to multi-column (dict-valued) results keep one state per column
         (f"center(bs({v}, df=4))", "perkey"), (f"scale(bs({v}, df=3))", "perkey"), (f"scale(poly({v}, 2))", "perkey"),
         (f"center(cr({v}, df=3))", "perkey"), (f"scale(cc({v}, df=3), ddof=0)", "perkey"),
+        # the same transforms reached through an object in the caller's context (module-style access)
+        (f"ft.center({v})", "attr"), (f"ft.scale({v})", "attr"), (f"ft.poly({v}, 2)", "attr"), (f"ft.bs({v}, df=4)", "attr"),
+        (f"ft.scale(ft.center({v}))", "attr"), (f"{{ft.center({v}) * 2}}", "attr"),
     ]
     if pos:
         opts += [(f"log({v})", "log"), (f"log10({v})", "log"), (f"exp10({v})", "exp"), (f"scale(log({v}))", "nested")]
@@ -154,8 +157,18 @@ def gen_case(rng: random.Random, tier: str) -> dict:
             "sig": [used, sorted(len(t) for t in terms), f.count("|") + 2 * f.count("~"), plain]}
 
 
+def make_ctx():
+    import types
+
+    from formulaic.transforms import TRANSFORMS
+
+    return {"ft": types.SimpleNamespace(**{k: TRANSFORMS[k] for k in ("center", "scale", "poly", "bs")}), "tools": {"center": TRANSFORMS["center"]}}
+
+
 def judge(case) -> Outcome:
     from formulaic import model_matrix
+
+    CTX = make_ctx()
 
     out = Outcome()
     out.sig = (tuple(case["sig"][0]), tuple(case["sig"][1]), tuple(case["sig"][2:]), tuple(sorted({f["kind"] for f in case["follow"]})), case["output"])
@@ -164,7 +177,7 @@ def judge(case) -> Outcome:
     tag = f"{f!r} output={case['output']}"
     with quiet():
         try:
-            mm = model_matrix(f, df, output=case["output"], context={})
+            mm = model_matrix(f, df, output=case["output"], context=CTX)
         except Exception as e:  # noqa: BLE001
             msg = str(e)
             if "ValueError" in msg or isinstance(e, ValueError):
@@ -198,19 +211,19 @@ def judge(case) -> Outcome:
             try:
                 if kind == "pickle":
                     sp = pickle.loads(pickle.dumps(spec))
-                    m2 = sp.get_model_matrix(sub)
+                    m2 = sp.get_model_matrix(sub, context=CTX)
                 elif kind == "deepcopy":
                     import copy
 
-                    m2 = copy.deepcopy(spec).get_model_matrix(sub)
+                    m2 = copy.deepcopy(spec).get_model_matrix(sub, context=CTX)
                 elif kind == "via_function":
-                    m2 = model_matrix(spec, sub)
+                    m2 = model_matrix(spec, sub, context=CTX)
                 elif kind == "via_matrix":
-                    m2 = model_matrix(mm, sub)
+                    m2 = model_matrix(mm, sub, context=CTX)
                 elif kind == "part_alone":  # each part's own spec, used by itself
-                    m2 = [p.model_spec.get_model_matrix(sub) for p in parts]
+                    m2 = [p.model_spec.get_model_matrix(sub, context=CTX) for p in parts]
                 else:
-                    m2 = sp.get_model_matrix(sub)
+                    m2 = sp.get_model_matrix(sub, context=CTX)
             except Exception as e:  # noqa: BLE001
                 out.fail("c04.replay_raised", f"{tag} step {step} [{kind}] rows={rows[:6]}: {type(e).__name__}: {str(e)[:200]}")
                 return out
